@@ -2,11 +2,11 @@ package main
 
 import (
 	"fmt"
-	"strings"
 	"go/ast"
 	"go/constant"
 	"go/token"
 	"go/types"
+	"strings"
 )
 
 type kind int
@@ -41,16 +41,17 @@ type node struct {
 
 // cfg of one function, after clean-up: nodes[0] is the entry
 type cfg struct {
-	fn        *fnInfo
-	nodes     []*node
-	loops     []token.Pos // positions of translated (non-elided) loops
-	elided    []token.Pos // tick-free loops that were elided or translated once-through
-	inlined   int
-	headOf    map[*node]token.Pos
-	degraded  []token.Pos // position tests degraded to Unknown
-	snapDef   []bool      // a snapshot has been taken on every path to the node
-	builtNext, builtTick, builtCall int // call expressions visited by the builder (outside inlined bodies)
-	assumedUsed []token.Pos
+	fn                              *fnInfo
+	nodes                           []*node
+	loops                           []token.Pos // positions of translated (non-elided) loops
+	elided                          []token.Pos // tick-free loops that were elided or translated once-through
+	inlined                         int
+	headOf                          map[*node]token.Pos
+	degraded                        []token.Pos // position tests degraded to Unknown
+	snapDef                         []bool      // a snapshot has been taken on every path to the node
+	builtNext, builtTick, builtCall int         // call expressions visited by the builder (outside inlined bodies)
+	assumedUsed                     []token.Pos
+	builtLoops                      int // for/range statements visited by the builder (outside inlined bodies)
 }
 
 type loopCtx struct {
@@ -75,6 +76,7 @@ type builder struct {
 	inlStack []*fnInfo
 	guard    map[*types.Var]bool
 	fallTo   *node
+	instID   int // distinguishes the expansions of an inlined predicate (pure conditions of different expansions never match)
 }
 
 const maxInlineDepth = 4
@@ -477,7 +479,7 @@ func (b *builder) pureKey(e ast.Expr) string {
 	if !ok {
 		return ""
 	}
-	return sb.String()
+	return fmt.Sprintf("%d:%s", b.instID, sb.String())
 }
 
 func (b *builder) curFn() *fnInfo {
@@ -532,6 +534,8 @@ func (b *builder) inline(c *fnInfo, call *ast.CallExpr, t, f *node) *node {
 	sub := &builder{pk: pk, fn: b.fn, g: b.g, labels: map[string]*node{}, inl: true, inlT: t, inlF: f,
 		consts: map[*types.Var]int64{}, depth: b.depth + 1, inlStack: append(append([]*fnInfo{}, b.inlStack...), c),
 		guard: map[*types.Var]bool{}}
+	pk.instCounter++
+	sub.instID = pk.instCounter
 	// bind parameters that receive token constants and are never written in the callee
 	sig := c.obj.Type().(*types.Signature)
 	if sig.Params().Len() == len(call.Args) && !sig.Variadic() {
@@ -749,6 +753,9 @@ func (b *builder) stmt0(s ast.Stmt, next *node, label string) *node {
 		}
 		return b.stmt(x.Init, b.cond(x.Cond, thenN, elseN), "")
 	case *ast.ForStmt:
+		if b.depth == 0 {
+			b.g.builtLoops++
+		}
 		if !pk.hasRelevant(x) {
 			b.g.elided = append(b.g.elided, x.Pos())
 			if !escapes(x.Body) {
@@ -779,6 +786,12 @@ func (b *builder) stmt0(s ast.Stmt, next *node, label string) *node {
 			if _, isFunc := tv.Type.Underlying().(*types.Signature); isFunc {
 				pk.problem(x.Pos(), "range over a function")
 			}
+		}
+		if b.depth == 0 {
+			b.g.builtLoops++
+		}
+		if pk.hasRelevant(x.Key) || pk.hasRelevant(x.Value) {
+			pk.problem(x.Pos(), "parser call in the key/value expression of a range statement")
 		}
 		if !pk.hasRelevant(x.Body) {
 			b.g.elided = append(b.g.elided, x.Pos())
